@@ -38,6 +38,9 @@ func check(c *reqcase.Case, rq *reqcase.ReqSpec, ob reqcase.Obs) (string, bool) 
 		if c.WideOwnership && ownedByAll(rq.Subject) {
 			return fmt.Sprintf("the service owns every resource (SetOwnedResources with \">\") but no subscription of it receives the request %s: it stays unanswered", rq.Subject), nt
 		}
+		if !c.WideOwnership && d.WellFormed && ownedByAll(rq.Subject) && ownedByDefault(c, d.Type, d.RName) {
+			return fmt.Sprintf("the service has a handler for %s requests and owns, by default, its name and everything below it, but no subscription of it receives the request %s: it stays unanswered (handlers %+v)", d.Type, rq.Subject, c.Handlers), nt
+		}
 		// no subscription of the service matches this subject: not a request to this service
 		return "", false
 	}
@@ -81,6 +84,28 @@ func ownedByAll(subject string) bool {
 	switch toks[0] {
 	case "get", "call", "auth", "access":
 		return true
+	}
+	return false
+}
+
+// ownedByDefault: the default ownership covers the service name and everything below it, for
+// access requests when some handler has an access handler and for get/call/auth requests
+// when some handler has a get, call, auth or new handler - wherever in the pattern tree.
+func ownedByDefault(c *reqcase.Case, typ, rname string) bool {
+	if c.Name == "" || !(rname == c.Name || strings.HasPrefix(rname, c.Name+".")) {
+		return false
+	}
+	for _, h := range c.Handlers {
+		switch typ {
+		case "access":
+			if h.Access {
+				return true
+			}
+		case "get", "call", "auth":
+			if h.Get || len(h.Calls) > 0 || len(h.Auths) > 0 || h.New {
+				return true
+			}
+		}
 	}
 	return false
 }
